@@ -5,21 +5,26 @@ D: spec/Cancel.tla is the design model of a cancellable read (phases of checked 
 V: harness/cmd/robust c10 runs pdfcpu.ReadWithContext / ReadFileWithContext on corpus and generated documents with the
    io.ReadSeeker wrapped so that the context is cancelled right after the j-th Read/Seek (every j for small documents,
    phase boundaries + seeded sample for big ones), before the call, by an expired deadline, and from a timer goroutine
-   at seeded random times.  Every run is one record; TLC (spec/CancelTrace.tla) judges all records against CancelOps."""
+   at seeded random times, and 10/30/60 percent into the longest stretches of the uncancelled read that touch no input
+   (documents with one huge object: 10^5 string literals and a trailing comment, hex strings, comment lines).
+   Every run is one record; TLC (spec/CancelTrace.tla) judges all records against CancelOps."""
 import json, os, shutil
 import vlib
 
 META = {
     "level": "exploration",
-    "text": "Every read of a corpus or generated document (object streams, incremental updates, xref repair, 10^4/10^5 objects) is "
+    "text": "Every read of a corpus or generated document (object streams, incremental updates, xref repair, 10^4/10^5 objects, one huge "
+            "object of 10^5 literals / hex strings / comments) is "
             "cancelled after each input operation j (all j for small documents, phase boundaries plus a seeded sample for big ones), "
-            "before the call, by an expired deadline and from a timer at seeded times; TLC judges every recorded run against the "
+            "before the call, by an expired deadline, from a timer at seeded times and inside the longest input-free computation "
+            "stretches; TLC judges every recorded run against the "
             "contract of CancelOps.tla: result is the uncancelled result or the context's error with a nil document, at most "
             "OpsBound(size) input operations are started after the cancellation, and the reading thread consumes at most "
             "max(100 ms, 25% of a full read) CPU time after it. The design model Cancel.tla is checked by TLC over all interleavings.",
     "note": "Trusted: the Read/Seek wrapper and the per-thread CPU clock; OpsBound = 32 + 2*ceil(size/4096) (a unit of work is at most "
             "one linear pass over the input; calibrated with the repair-path defects fixed: max 49 at 1 MB, 19 on small inputs); "
-            "time is CPU time of the reading thread (wall time is recorded but not judged: the machine is shared) and a time "
+            "time is CPU time of the reading thread, judged for timer, in-stretch and after-the-j-th-operation cancellations (wall time is "
+            "recorded but not judged: the machine is shared) and a time "
             "violation is reported only after three confirming re-measurements; go1.26.8 toolchain.",
     "technique": "TLA+ design model of cancellation checked by TLC + schedule enumeration over a wrapped io.ReadSeeker, records judged by TLC",
     "design_ref": "DESIGN.md §5 C10",
